@@ -72,6 +72,9 @@ func checkC01(c *Ctx) {
 		p := g.Program(fmt.Sprintf("c01-%d", i))
 		progs = append(progs, p)
 	}
+	for i := 0; i < c.pick(12, 200); i++ {
+		progs = append(progs, pkgVarProgram(r, fmt.Sprintf("c01-pkgvar-%d", i)))
+	}
 	b := runMiniGoSpec(c, progs, 8, "c01")
 	nb := 0
 	for _, p := range progs {
